@@ -251,6 +251,78 @@ pub fn check_edit(t: &Table, e: &TypeEntry, v: &Val, path: &[(usize, usize)], ed
     }
 }
 
+/// The date/time value (TLV 34) is itself a group of two tagged objects, 1f0e (date) and 1f0f (time), read by a hand-written
+/// loop. Variants of that group: 0 = time first; 1..=6 = one of the two objects repeated at position 0 / 1 / 2; 7, 8 = one
+/// object removed. Applied to the first date/time element of the value's tree.
+pub const DATETIME_VARIANTS: usize = 9;
+fn find_datetime(gs: &mut [Group]) -> Option<&mut Elem> {
+    for g in gs.iter_mut() {
+        let is_dt = g.enc == Enc::DateTime;
+        for e in g.elems.iter_mut() {
+            if is_dt {
+                return Some(e);
+            }
+            if let Node::Struct(inner) = &mut e.node {
+                if let Some(x) = find_datetime(inner) {
+                    return Some(x);
+                }
+            }
+        }
+    }
+    None
+}
+pub fn check_datetime_edit(t: &Table, e: &TypeEntry, v: &Val, variant: usize) -> CheckResult {
+    let l = &t[e.name];
+    let input = json!({"type": e.name, "value": v, "variant": variant});
+    let Ok(mut gs) = build(t, l, v) else { return Ok(()) };
+    let Some(canon) = assemble_top(l, &gs) else { return Ok(()) };
+    let Some(el) = find_datetime(&mut gs) else { return Ok(()) };
+    let Node::Leaf(b) = &el.node else { return Ok(()) };
+    if b.len() != 13 || b[..3] != [0x1f, 0x0e, 0x04] || b[7..10] != [0x1f, 0x0f, 0x03] {
+        return Ok(());
+    }
+    let (date, time) = (b[..7].to_vec(), b[7..].to_vec());
+    let (parts, expect): (Vec<&Vec<u8>>, Option<u16>) = match variant {
+        0 => (vec![&time, &date], None),
+        1 => (vec![&date, &date, &time], Some(0x1f0e)),
+        2 => (vec![&date, &time, &date], Some(0x1f0e)),
+        3 => (vec![&time, &date, &date], Some(0x1f0e)),
+        4 => (vec![&time, &time, &date], Some(0x1f0f)),
+        5 => (vec![&time, &date, &time], Some(0x1f0f)),
+        6 => (vec![&date, &time, &time], Some(0x1f0f)),
+        7 => (vec![&date], Some(0)),
+        _ => (vec![&time], Some(0)),
+    };
+    el.node = Node::Leaf(parts.into_iter().flatten().copied().collect());
+    let Some(bytes) = assemble_top(l, &gs) else { return Ok(()) };
+    let ty = e.name;
+    let got = guard(|| (e.decode)(&bytes)).map_err(|p| Violation::new("datetime", format!("C13 type={ty} edit=datetime kind=panic"), format!("decoding {} panicked: {p}", clip(&hex(&bytes), 300)), input.clone()))?;
+    let show = |r: &Result<(String, usize), ZVTError>| match r {
+        Ok((d, rest)) => format!("Ok({}, {rest} bytes left)", clip(d, 300)),
+        Err(e) => format!("Err({e:?})"),
+    };
+    match expect {
+        None => match &got {
+            Ok((d, 0)) if *d == render(v) && (e.eq)(&bytes, &canon) == Some(true) => Ok(()),
+            _ => Err(Violation::new("datetime", format!("C13 type={ty} edit=datetime-permute kind=order-dependent"), format!("time object in front of the date object: {}
+  result {}
+  expected the canonical value", clip(&hex(&bytes), 300), show(&got)), input)),
+        },
+        Some(0) => match &got {
+            Err(_) => Ok(()),
+            _ => Err(Violation::new("datetime", format!("C13 type={ty} edit=datetime-remove kind=missing-not-reported"), format!("one of the two objects removed: {}
+  result {}
+  expected an error", clip(&hex(&bytes), 300), show(&got)), input)),
+        },
+        Some(tag) => match &got {
+            Err(ZVTError::DuplicateTag(zvt::Tag(x))) if *x == tag => Ok(()),
+            _ => Err(Violation::new("datetime", format!("C13 type={ty} edit=datetime-duplicate kind=duplicate-not-reported"), format!("tag {tag:#x} occurs twice inside the date/time value: {}
+  result {}
+  expected Err(DuplicateTag(Tag({tag})))", clip(&hex(&bytes), 300), show(&got)), input)),
+        },
+    }
+}
+
 /// deterministic pseudo-random permutation of 0..n
 fn perm(n: usize, seed: u64) -> Vec<usize> {
     let mut p: Vec<usize> = (0..n).collect();
@@ -416,6 +488,13 @@ pub fn replay(check: &str, i: &Value) -> Option<CheckResult> {
     if check == "lab" {
         return crate::props::c12::replay_for(P, i);
     }
+    if check == "datetime" {
+        let t = crate::table();
+        let name = i.get("type")?.as_str()?;
+        let v: Val = serde_json::from_value(i.get("value")?.clone()).ok()?;
+        let e = types().into_iter().find(|e| e.name == name)?;
+        return Some(check_datetime_edit(&t, &e, &v, i.get("variant")?.as_u64()? as usize));
+    }
     let t = crate::table();
     let name = i.get("type")?.as_str()?;
     let v: Val = serde_json::from_value(i.get("value")?.clone()).ok()?;
@@ -474,6 +553,15 @@ pub fn run(tier: Tier) -> i32 {
                 }
                 check_edit(&t, e, v, &path, &edit)?;
             }
+            // the date/time value is a tagged group of its own (hand-written decoder)
+            let mut probe = gs.clone();
+            if find_datetime(&mut probe).is_some() {
+                for variant in 0..DATETIME_VARIANTS {
+                    st.case(true, fnv(&serde_json::to_vec(&(&e.name, v, "datetime", variant)).unwrap()));
+                    st.class("datetime-group-edit");
+                    check_datetime_edit(&t, e, v, variant)?;
+                }
+            }
             Ok(())
         });
     });
@@ -511,7 +599,7 @@ pub fn run(tier: Tier) -> i32 {
     }
     ctx.finish(
         stats,
-        "shipped types with tagged fields x proptest-generated canonical values x edits of the group list the reference encoder returns per struct level (top level and every nested container, enclosing length prefixes recomputed): every permutation of <= 4 (thorough 6) present tagged groups and sampled ones above; each present non-repeated group duplicated to every position; every non-empty subset of mandatory groups removed; a tag unknown to the whole packet tree inserted at every gap. non-trivial = >= 3 tagged groups present at the edited level, or the level is nested; distinct by (type, value, level, edit)",
+        "shipped types with tagged fields x proptest-generated canonical values x edits of the group list the reference encoder returns per struct level (top level and every nested container, enclosing length prefixes recomputed): every permutation of <= 4 (thorough 6) present tagged groups and sampled ones above; each present non-repeated group duplicated to every position; every non-empty subset of mandatory groups removed; a tag unknown to the whole packet tree inserted at every gap; inside a date/time value (objects 1f0e, 1f0f, hand-written decoder): swapped, each object repeated at every position, each removed. non-trivial = >= 3 tagged groups present at the edited level, or the level is nested; distinct by (type, value, level, edit)",
         &[
             "foreign tags are chosen unknown to every level of the packet tree, so re-offering the remainder to the enclosing level cannot adopt them",
             "inside a Vec element (failure = end of vector, documented in zvt_builder) duplicates/removals are judged by the weaker prefix predicate",
